@@ -376,7 +376,7 @@ pub fn run(c: &Case, ctx: &Ctx) -> Outcome {
         }
     }
     let total = states.len();
-    let cap = if ctx.tier.is_thorough() { 400 } else { 48 };
+    let cap = if ctx.tier.is_thorough() { 200 } else { 48 };
     if total > 0 {
         let r = usize::from(c.rotate) % total;
         states.rotate_left(r);
@@ -466,7 +466,7 @@ pub fn spec() -> PropSpec {
     PropSpec {
         id: "C05",
         level: "fault_enumeration",
-        rule: "proptest generates (configuration, source tree, history of 0–4 operations incl. two-handle backups = duplicate blobs, duplicated index files, non-instant prunes = marked packs); for every stored snapshot/index/pack file the fault states {remove; truncate to 0, 1, mid, len−1, every blob boundary, header start, generated lengths; flip one bit at offsets 0/15/16 (nonce, first body byte), middle, tag, inside every blob and its tag, header start/body, every byte of the length field, generated offsets; swap content with up to 4 siblings of the same type; for index files duplicate / drop one entry (re-encoded with the independent encoder)} are enumerated; each case judges a rotating window of 48 (quick) / 400 (thorough) of them. Non-trivial = at least one fault that breaks a restore and is reported by check; distinct by hash of the case. Counters: fault_states_judged etc.",
+        rule: "proptest generates (configuration, source tree, history of 0–4 operations incl. two-handle backups = duplicate blobs, duplicated index files, non-instant prunes = marked packs); for every stored snapshot/index/pack file the fault states {remove; truncate to 0, 1, mid, len−1, every blob boundary, header start, generated lengths; flip one bit at offsets 0/15/16 (nonce, first body byte), middle, tag, inside every blob and its tag, header start/body, every byte of the length field, generated offsets; swap content with up to 4 siblings of the same type; for index files duplicate / drop one entry (re-encoded with the independent encoder)} are enumerated; each case judges a rotating window of 48 (quick) / 200 (thorough) of them. Non-trivial = at least one fault that breaks a restore and is reported by check; distinct by hash of the case. Counters: fault_states_judged etc.",
         assumptions: vec![
             "single faults only; key and config files are not damaged",
             "R is evaluated through a freshly opened library handle (list + dump of every file of every snapshot the repository lists)",
@@ -475,7 +475,7 @@ pub fn spec() -> PropSpec {
         subs: vec![Box::new(Sub {
             name: "faults",
             cases_quick: 160,
-            cases_thorough: 2500,
+            cases_thorough: 800,
             max_shrink_iters: 40,
             strategy,
             run,
